@@ -31,7 +31,10 @@ __CPROVER_ensures((RET != 0 && n == 2 && DIGIT(text[0]) != 0) ==> (DIGIT(text[0]
 #define ENCIN(e, len) (((len) < 1 || INALPHA((e)[0])) && ((len) < 2 || INALPHA((e)[1])) && ((len) < 3 || INALPHA((e)[2])) && ((len) < 4 || INALPHA((e)[3])) && \
                        ((len) < 5 || INALPHA((e)[4])) && ((len) < 6 || INALPHA((e)[5])))
 size_t w_encode59_c(const uint8_t* in, size_t n, char* enc, uint8_t* back, size_t* backlen, int* dec_ok)
-__CPROVER_requires(n <= 3 && __CPROVER_is_fresh(in, 3) && __CPROVER_is_fresh(enc, 8) && __CPROVER_is_fresh(back, SMAX) && __CPROVER_is_fresh(backlen, sizeof(size_t)) && __CPROVER_is_fresh(dec_ok, sizeof(int)))
+#ifndef NENC
+#define NENC 3
+#endif
+__CPROVER_requires(n <= NENC && __CPROVER_is_fresh(in, 3) && __CPROVER_is_fresh(enc, 8) && __CPROVER_is_fresh(back, SMAX) && __CPROVER_is_fresh(backlen, sizeof(size_t)) && __CPROVER_is_fresh(dec_ok, sizeof(int)))
 __CPROVER_assigns(__CPROVER_object_whole(enc), __CPROVER_object_whole(back), *backlen, *dec_ok)
 __CPROVER_ensures(RET <= 6 && ENCIN(enc, RET))
 __CPROVER_ensures((n == 0) == (RET == 0))
